@@ -82,17 +82,19 @@ theorem C16_gen_register (W : World Det) (r : Reg) (e : Entry) (gen : Int) (sc v
     (hv : W.call vd [.fn e.fn] = .ok (.bool true)) :
     Registry.register_decorator W (encReg r gen sc vd base dflt) (.val e.det) (.int e.prio) (.fn e.fn)
       = .ok (encReg (register r e) (gen + 1) sc vd base dflt, Outcome.ret (.fn e.fn)) := by
-  have he : OVal.seq .tuple [.val e.det, .fn e.fn, .int e.prio] = encEntry e := rfl
-  obj_simp [Registry.register_decorator, encReg, getattr, setattr, lookupAttr, setAttrL, hv, truthy, dictClear, encCache,
-    concat, add, intOf?, register]
-  rw [he, ← List.map_cons, sortByKey_entries _ (by intro x; obj_simp [encEntry, index, neg, intOf?])]
+  gen_obligation "C16_gen_register: the regenerated code (Utv.Gen) is no longer equal to the hand model here" by
+    have he : OVal.seq .tuple [.val e.det, .fn e.fn, .int e.prio] = encEntry e := rfl
+    obj_simp [Registry.register_decorator, encReg, getattr, setattr, lookupAttr, setAttrL, hv, truthy, dictClear, encCache,
+      concat, add, intOf?, register]
+    rw [he, ← List.map_cons, sortByKey_entries _ (by intro x; obj_simp [encEntry, index, neg, intOf?])]
 
 /-- a target the validator refuses is a `TypeError`, the registry is untouched -/
 theorem C16_gen_register_invalid (W : World Det) (r : Reg) (e : Entry) (gen : Int) (sc vd base dflt : D)
     (hv : W.call vd [.fn e.fn] = .ok (.bool false)) :
     Registry.register_decorator W (encReg r gen sc vd base dflt) (.val e.det) (.int e.prio) (.fn e.fn)
       = .ok (encReg r gen sc vd base dflt, Outcome.raise (.obj "TypeError" [])) := by
-  obj_simp [Registry.register_decorator, encReg, getattr, lookupAttr, hv, truthy]
+  gen_obligation "C16_gen_register_invalid: the regenerated code (Utv.Gen) is no longer equal to the hand model here" by
+    obj_simp [Registry.register_decorator, encReg, getattr, lookupAttr, hv, truthy]
 
 /-! ### resolve -/
 
@@ -203,58 +205,26 @@ theorem C16_gen_resolve (W : Obj.World Det) (W16 : C16.World) (r : Reg) (t : Nat
     (hc : (r.cache.map (·.1)).Nodup) :
     Registry.resolve W (encReg r gen (.str scn) vd base dflt) (.cls t) =
       .ok (encReg (C16.resolve W16 r t).1 gen (.str scn) vd base dflt, .ret (encOptFn (C16.resolve W16 r t).2)) := by
-  obtain ⟨entries, cache, cacheOn⟩ := r
-  unfold Registry.resolve C16.resolve
-  have hsc := hw.shortcut t
-  have hfb := hw.fallback t
-  have hbt := hw.baseTruth
-  cases hs : W16.shortcut t with
-  | some f =>
-    rw [hs] at hsc
-    obj_simp [encReg, getattr, lookupAttr, hscn, hasattrW, getattrW, hsc, hw.valid, encOptFn]
-  | none =>
-    rw [hs] at hsc
-    cases cacheOn with
-    | false =>
-      obj_simp [encReg, getattr, lookupAttr, hscn, hasattrW, getattrW, hsc, iter]
-      rw [forIn_find (p := fun e => e.det.matches W16 t)
-        (fin := fun e => (some (encReg ⟨entries, cache, false⟩ gen (.str scn) vd base dflt, Outcome.ret (.fn e.fn)),
-                         encReg ⟨entries, cache, false⟩ gen (.str scn) vd base dflt))]
-      · cases hfind : entries.find? (fun e => e.det.matches W16 t) with
-        | some e => simp [encReg, encOptFn]
-        | none =>
-          simp only [lookupAttr]
-          cases b <;> simp_all [encOptFn]
-      · intro e
-        rcases detAnswer_cases W16 e.det t with h | ⟨h, hm⟩
-        · cases hm : e.det.matches W16 t <;>
-            obj_simp [unpack3, encEntry, hw.det, encReg, tryCatch, tryCatchThe, MonadExceptOf.tryCatch, Except.tryCatch, h, hm,
-              getattr, lookupAttr, EarlyReturnT.return, ExceptT.run, OptionT.run, OptionT.pure, ExceptT.pure, ExceptT.mk, OptionT.mk]
-          all_goals rfl
-        · obj_simp [unpack3, encEntry, hw.det, encReg, tryCatch, tryCatchThe, MonadExceptOf.tryCatch, Except.tryCatch, h, hm,
-              Exc.isA, ExceptT.run, ContinueT.continue, OptionT.run]
-          rfl
-    | true =>
-      have hlk : lookupKey (V := Det) (.cls t) (cache.map encKV).reverse = .ok ((lookup t cache).map .fn) := by
-        rw [← List.map_reverse, lookupKey_enc, lookup_reverse t cache hc]
-      cases hl : lookup t cache with
-      | some f =>
-        rw [hl] at hlk
-        obj_simp [encReg, getattr, lookupAttr, hscn, hasattrW, getattrW, hsc, iter, dictGet, encCache, hlk, OVal.isNone,
-          encOptFn]
-      | none =>
-        rw [hl] at hlk
-        have hset : ∀ v : D, setKey (V := Det) (.cls t) v (cache.map encKV).reverse
-            = .ok ((cache.map encKV).reverse ++ [(.cls t, v)]) := by
-          intro v
-          rw [← List.map_reverse]
-          exact setKey_enc t v cache.reverse (by rw [lookup_reverse t cache hc, hl])
-        obj_simp [encReg, getattr, lookupAttr, hscn, hasattrW, getattrW, hsc, iter, dictGet, encCache, hlk, OVal.isNone]
+  gen_obligation "C16_gen_resolve: the regenerated code (Utv.Gen) is no longer equal to the hand model here" by
+    obtain ⟨entries, cache, cacheOn⟩ := r
+    unfold Registry.resolve C16.resolve
+    have hsc := hw.shortcut t
+    have hfb := hw.fallback t
+    have hbt := hw.baseTruth
+    cases hs : W16.shortcut t with
+    | some f =>
+      rw [hs] at hsc
+      obj_simp [encReg, getattr, lookupAttr, hscn, hasattrW, getattrW, hsc, hw.valid, encOptFn]
+    | none =>
+      rw [hs] at hsc
+      cases cacheOn with
+      | false =>
+        obj_simp [encReg, getattr, lookupAttr, hscn, hasattrW, getattrW, hsc, iter]
         rw [forIn_find (p := fun e => e.det.matches W16 t)
-          (fin := fun e => (some (encReg ⟨entries, (t, e.fn) :: cache, true⟩ gen (.str scn) vd base dflt, Outcome.ret (.fn e.fn)),
-                           encReg ⟨entries, cache, true⟩ gen (.str scn) vd base dflt))]
+          (fin := fun e => (some (encReg ⟨entries, cache, false⟩ gen (.str scn) vd base dflt, Outcome.ret (.fn e.fn)),
+                           encReg ⟨entries, cache, false⟩ gen (.str scn) vd base dflt))]
         · cases hfind : entries.find? (fun e => e.det.matches W16 t) with
-          | some e => simp [encReg, encOptFn, encCache]
+          | some e => simp [encReg, encOptFn]
           | none =>
             simp only [lookupAttr]
             cases b <;> simp_all [encOptFn]
@@ -262,12 +232,45 @@ theorem C16_gen_resolve (W : Obj.World Det) (W16 : C16.World) (r : Reg) (t : Nat
           rcases detAnswer_cases W16 e.det t with h | ⟨h, hm⟩
           · cases hm : e.det.matches W16 t <;>
               obj_simp [unpack3, encEntry, hw.det, encReg, tryCatch, tryCatchThe, MonadExceptOf.tryCatch, Except.tryCatch, h, hm,
-                getattr, setattr, setAttrL, lookupAttr, EarlyReturnT.return, ExceptT.run, OptionT.run, OptionT.pure, ExceptT.pure, ExceptT.mk, OptionT.mk,
-                eq, eqS, intOf?, dictSet, encCache, hset, encKV]
+                getattr, lookupAttr, EarlyReturnT.return, ExceptT.run, OptionT.run, OptionT.pure, ExceptT.pure, ExceptT.mk, OptionT.mk]
             all_goals rfl
           · obj_simp [unpack3, encEntry, hw.det, encReg, tryCatch, tryCatchThe, MonadExceptOf.tryCatch, Except.tryCatch, h, hm,
                 Exc.isA, ExceptT.run, ContinueT.continue, OptionT.run]
             rfl
+      | true =>
+        have hlk : lookupKey (V := Det) (.cls t) (cache.map encKV).reverse = .ok ((lookup t cache).map .fn) := by
+          rw [← List.map_reverse, lookupKey_enc, lookup_reverse t cache hc]
+        cases hl : lookup t cache with
+        | some f =>
+          rw [hl] at hlk
+          obj_simp [encReg, getattr, lookupAttr, hscn, hasattrW, getattrW, hsc, iter, dictGet, encCache, hlk, OVal.isNone,
+            encOptFn]
+        | none =>
+          rw [hl] at hlk
+          have hset : ∀ v : D, setKey (V := Det) (.cls t) v (cache.map encKV).reverse
+              = .ok ((cache.map encKV).reverse ++ [(.cls t, v)]) := by
+            intro v
+            rw [← List.map_reverse]
+            exact setKey_enc t v cache.reverse (by rw [lookup_reverse t cache hc, hl])
+          obj_simp [encReg, getattr, lookupAttr, hscn, hasattrW, getattrW, hsc, iter, dictGet, encCache, hlk, OVal.isNone]
+          rw [forIn_find (p := fun e => e.det.matches W16 t)
+            (fin := fun e => (some (encReg ⟨entries, (t, e.fn) :: cache, true⟩ gen (.str scn) vd base dflt, Outcome.ret (.fn e.fn)),
+                             encReg ⟨entries, cache, true⟩ gen (.str scn) vd base dflt))]
+          · cases hfind : entries.find? (fun e => e.det.matches W16 t) with
+            | some e => simp [encReg, encOptFn, encCache]
+            | none =>
+              simp only [lookupAttr]
+              cases b <;> simp_all [encOptFn]
+          · intro e
+            rcases detAnswer_cases W16 e.det t with h | ⟨h, hm⟩
+            · cases hm : e.det.matches W16 t <;>
+                obj_simp [unpack3, encEntry, hw.det, encReg, tryCatch, tryCatchThe, MonadExceptOf.tryCatch, Except.tryCatch, h, hm,
+                  getattr, setattr, setAttrL, lookupAttr, EarlyReturnT.return, ExceptT.run, OptionT.run, OptionT.pure, ExceptT.pure, ExceptT.mk, OptionT.mk,
+                  eq, eqS, intOf?, dictSet, encCache, hset, encKV]
+              all_goals rfl
+            · obj_simp [unpack3, encEntry, hw.det, encReg, tryCatch, tryCatchThe, MonadExceptOf.tryCatch, Except.tryCatch, h, hm,
+                  Exc.isA, ExceptT.run, ContinueT.continue, OptionT.run]
+              rfl
 
 /-- `WorldOk` is satisfiable for every model world (with a base registry that answers `fallback`) -/
 def encWorld (W16 : C16.World) (scn : String) : Obj.World Det where
